@@ -24,7 +24,10 @@ let kind_of = function
 (* least / greatest enumerator of the generator's four enum shapes (tools/gen_c08_decls.py ENUM_BODY) *)
 let enum_range = function
   | "int" -> ("-1", "7") | "uint" -> ("0", "2147483648") | "long" -> ("-1", "4294967296")
-  | "ulong" -> ("0", "9223372036854775808") | s -> failwith ("bad enum kind " ^ s)
+  | "ulong" -> ("0", "9223372036854775808")
+  | "pos" -> ("0", "3") | "one" -> ("0", "0") | "neg8" -> ("-128", "127") | "imin" -> ("-2147483648", "0")
+  | "umax" -> ("0", "4294967295") | "imax" -> ("0", "2147483647") | "lneg" -> ("-2147483649", "1")
+  | "lpos" -> ("0", "9223372036854775807") | s -> failwith ("bad enum kind " ^ s)
 
 let tokens s = List.filter (fun x -> x <> "") (String.split_on_char ' ' (String.trim s))
 
@@ -108,6 +111,44 @@ let do_classify b pres t =
   (* inside the quantifier of the classification theorems? *)
   Buffer.add_string b (if wf_ty t then " wf=1" else " wf=0")
 
+(* "B <decl>" -> per named bit-field (DFS order of the probes, array elements once) three letters:
+   c2mir model without / with fixes/C08-7, gcc model; s = sign-extended, u = zero-extended *)
+let do_bfsign b t =
+  let l x = if x then "s" else "u" in
+  let rec of_ty t = match t with
+    | TAgg (_, ms) -> List.iter (fun (mk, mt) -> match mk with
+        | MNamed | MAnon -> of_ty mt
+        | MBits (w, true) ->
+          Buffer.add_string b (" " ^ l (c2m_bf_signed false mt w) ^ l (c2m_bf_signed true mt w) ^ l (sv_bf_signed mt w))
+        | MBits (_, false) -> ()) ms
+    | TArr (_, el) -> of_ty el
+    | _ -> () in
+  Buffer.add_string b "B"; of_ty t
+
+(* "G <0|1> <kinds|-> | <decl>": a whole signature - result through the hidden pointer or not, scalar
+   parameters (l i c p: INTEGER, f d: SSE, x: long double), then the aggregate, struct{long}, struct{double}
+   -> "G c2m=blk<k>+blk<k>+blk<k> sv=<p>+<p>+<p> nopad=<0|1>" (c2m_signature | sv_signature) *)
+let do_signature b big kinds t =
+  let tl = TAgg (false, [(MNamed, TBasic KLong)]) and td = TAgg (false, [(MNamed, TBasic KDouble)]) in
+  let res = if big then RAgg (TAgg (false, [(MNamed, TArr (z_of_int 4, TBasic KLong))])) else RScalar in
+  let ps = ref [] in
+  String.iter (fun c -> ps := (match c with
+    | 'l' | 'i' | 'c' | 'p' -> PInt | 'f' | 'd' -> PSse | 'x' -> PX87 | '-' -> PX87
+    | _ -> failwith "bad scalar kind") :: !ps) (if kinds = "-" then "" else kinds);
+  let n = List.length !ps in
+  let ps = List.rev !ps @ [PAgg t; PAgg tl; PAgg td] in
+  let rec drop k l = if k = 0 then l else drop (k - 1) (List.tl l) in
+  Buffer.add_string b "G c2m=";
+  List.iteri (fun i o -> Buffer.add_string b ((if i > 0 then "+" else "") ^
+    (match o with Some k -> Printf.sprintf "blk%d" (int_of_z k) | None -> "?"))) (drop n (c2m_signature res ps));
+  Buffer.add_string b " sv=";
+  List.iteri (fun i o -> if i > 0 then Buffer.add_string b "+";
+    match o with
+    | Some None -> Buffer.add_string b "M"
+    | Some (Some l) -> List.iter (fun p -> Buffer.add_string b (match p with InInt -> "I" | InSse -> "S" | InNone -> "n")) l
+    | None -> Buffer.add_string b "?") (drop n (sv_signature res ps));
+  Buffer.add_string b (if no_pad t then " nopad=1" else " nopad=0")
+
 let () =
   try
     while true do
@@ -125,6 +166,8 @@ let () =
              | [a; c] -> (int_of_string a, int_of_string c) | _ -> failwith "bad pre") pres in
            let (t, _) = parse_ty decl in
            do_classify b pres t
+         | "B" :: rest -> let (t, _) = parse_ty rest in do_bfsign b t
+         | "G" :: big :: kinds :: "|" :: decl -> let (t, _) = parse_ty decl in do_signature b (big = "1") kinds t
          | "L" :: rest -> let (t, _) = parse_ty rest in do_layout b t
          | toks -> let (t, _) = parse_ty toks in do_layout b t);
         print_endline (Buffer.contents b)
